@@ -371,7 +371,8 @@ void World::server_handle(VFd &s, bool tcp, const std::string &wire, size_t stre
   if (beh == B_WRONGID) { m.id = (uint16_t)(m.id + 1); resps[rid].defect |= DEF_WRONG_ID; }
 
   EncodeOpts eo;
-  eo.compress = (hash_mix(beh_key, (uint64_t)rid) & 3) != 0;
+  // layout choice keyed on the question, not on the response id, so it does not depend on the order responses are created in
+  eo.compress = (hash_mix(hash_str(beh_key ^ 0xC0, T.qname_lc), ((uint64_t)q.type << 8) ^ (uint64_t)T.attempt ^ ((uint64_t)tcp << 40)) & 3) != 0;
   if (!tcp) {
     size_t lim = 512;
     if (qopt) { lim = qopt->klass; if (lim < 512) lim = 512; if (lim > 4096) lim = 4096; }
